@@ -87,14 +87,46 @@ def bool_switches(prog, fn):
             os_ = tr.operand(os_[0].data["a"])
         if neg:
             true_t, false_t = false_t, true_t
-        out.append({"block": b, "cond": os_, "true": true_t, "false": false_t})
+        al = _assert_arm(fn, true_t) or _assert_arm(fn, false_t)
+        out.append({"block": b, "cond": os_, "true": true_t, "false": false_t, "assert_like": bool(al), "debug_assert": al == "debug"})
     return out
 
 
-def find_bool_split(prog, fn, cond_pred):
-    """The unique bool switch whose (single) condition origin satisfies cond_pred(origin)."""
+ASSERTION_MACROS = {"assert", "assert_eq", "assert_ne", "debug_assert", "debug_assert_eq", "debug_assert_ne"}
+
+
+def _assert_arm(fn, b, depth=0):
+    """Does this branch target do nothing but fail an `assert!` / `debug_assert!` (format the message, panic)?"""
+    seen = set()
+    cur = b
+    for _ in range(12):
+        if cur in seen or cur is None:
+            return False
+        seen.add(cur)
+        blk = fn.blocks[cur]
+        t = blk["term"]
+        if t is None:
+            return False
+        if t["t"] == "call":
+            if not (set(macro_names(t)) & ASSERTION_MACROS):
+                return False
+            if t["target"] is None:
+                return "debug" if any(m.startswith("debug_assert") for m in macro_names(t)) else "assert"
+            cur = t["target"]
+        elif t["t"] == "goto":
+            cur = t["target"]
+        else:
+            return False
+    return False
+
+
+def find_bool_split(prog, fn, cond_pred, with_asserts=False):
+    """The bool switches whose condition origins satisfy cond_pred(origin).  Tests that only guard an assertion
+    (`debug_assert!(!self.is_dirty())`) are not control flow of the algorithm and are left out."""
     hits = []
     for sw in bool_switches(prog, fn):
+        if sw.get("assert_like") and not with_asserts:
+            continue
         if len(sw["cond"]) >= 1 and all(cond_pred(o) for o in sw["cond"]):
             hits.append(sw)
     return hits
@@ -142,7 +174,7 @@ def zero_splits(prog, fn, operand_pred):
     CMP = {"core::cmp::PartialEq::eq": "Eq", "core::cmp::PartialEq::ne": "Ne", "core::cmp::PartialOrd::gt": "Gt", "core::cmp::PartialOrd::lt": "Lt",
            "core::cmp::PartialOrd::ge": "Ge", "core::cmp::PartialOrd::le": "Le"}
     for sw in bool_switches(prog, fn):
-        if len(sw["cond"]) != 1:
+        if len(sw["cond"]) != 1 or sw.get("assert_like"):
             continue
         o = sw["cond"][0]
         cand = None          # (operand, at-block, zero_on_true)
@@ -274,6 +306,7 @@ def result_fate(prog, fn, local, _seen=None):
         return {"returned"}
     fates = set()
     matched = False
+    rewrapped_ok = False
     err_payload_moved = []
     for b, blk in enumerate(fn.blocks):
         if blk["cleanup"]:
@@ -298,7 +331,15 @@ def result_fate(prog, fn, local, _seen=None):
                 elif rv["rv"] == "ref" and not proj:
                     fates |= result_fate(prog, fn, s["lhs"]["l"], seen)
                 elif proj and any(p == "dc:Err" for p in proj):
-                    err_payload_moved.append(s["lhs"]["l"])
+                    if rv["rv"] == "agg" and rv.get("adt") == "core::result::Result" and rv.get("variant") == "Err" and not s["lhs"]["p"]:
+                        # re-wrapped at once: `Err(e) => Err(e)` (what `map` / `and_then` stand for): the new Result's fate counts
+                        sub = result_fate(prog, fn, s["lhs"]["l"], seen)
+                        if sub and sub <= {"returned", "try", "match-returned"}:
+                            rewrapped_ok = True
+                        else:
+                            fates |= (sub - {"returned", "try", "match-returned"})
+                    else:
+                        err_payload_moved.append(s["lhs"]["l"])
                 elif proj and any(p == "dc:Ok" for p in proj):
                     pass
                 elif rv["rv"] == "agg":
@@ -324,7 +365,7 @@ def result_fate(prog, fn, local, _seen=None):
                 else:
                     fates.add("passed:" + callee)
     if matched:
-        ret = False
+        ret = rewrapped_ok
         for l in err_payload_moved:
             if _flows_to_err_return(prog, fn, l, set()):
                 ret = True
